@@ -17,7 +17,7 @@ RULE = (
     "set_config(valid C); set_config(invalid); render}, entries LIFO as `with` allows, checked after the last step of every "
     "history (every prefix is a history of its own) against a stack model: DescriptorFormat.config == model and a fixed "
     "3-level chain renders as the reference predicts. Hypothesis RuleBasedStateMachine: histories up to 40 steps, 3 objects, "
-    "patterns from a generated language (literals incl. doubled braces, the two placeholders with conversions/format specs, "
+    "leaving a context that is not the innermost one (non-LIFO), patterns from a generated language (literals incl. doubled braces, the two placeholders with conversions/format specs, "
     "other names, empty/positional/attribute/index fields, a field nested in a format spec); valid <=> the set of replacement "
     "fields incl. nested ones is exactly {mother, daughters}. Non-trivial: a history entering an object created >=1 "
     "state-changing step earlier, or nesting depth >=2, or an exceptional leave."
@@ -140,6 +140,19 @@ class Runner:
             if saved != self.current:
                 self.changed_at.append(self.n)
             self.current = saved
+        elif name == "leave_k":
+            # leave the most recent entry of object k although it is not the innermost one (generators, ExitStack,
+            # explicit __enter__/__exit__): that context restores the format in force when *it* was entered
+            idx = max(i for i, (o, _) in enumerate(self.stack) if o is self.objs[op[1]][0])
+            obj, saved = self.stack.pop(idx)
+            try:
+                obj.__exit__(None, None, None)
+            except Exception as e:  # noqa: BLE001
+                self.fail("exception", f"__exit__ raised {type(e).__name__}: {e}")
+            if saved != self.current:
+                self.changed_at.append(self.n)
+            self.current = saved
+            self.flags.add("non-lifo-leave")
         elif name == "set":
             _, pair, valid = op
             try:
@@ -364,6 +377,15 @@ def make_machine(rec):
             if valid is None:
                 return
             self.do(("set", pair, valid))
+
+        @precondition(lambda self: len(self.r.stack) >= 2)
+        @rule(data=st.data())
+        def leave_not_innermost(self, data):
+            entered = {k for k, (o, _, _) in self.r.objs.items() if o is not None and any(o is so for so, _ in self.r.stack[:-1])}
+            entered -= {k for k, (o, _, _) in self.r.objs.items() if o is self.r.stack[-1][0]}
+            if not entered:
+                return
+            self.do(("leave_k", data.draw(st.sampled_from(sorted(entered)))))
 
         @rule()
         def render(self):
